@@ -81,15 +81,20 @@ func offsetInRange(src string) bool {
 		return true
 	}
 
-	hour, minute, _ := strings.Cut(src[pos+1:], ":")
-	h, errH := strconv.Atoi(hour)
-	m := 0
-	var errM error
-	if minute != "" {
-		m, errM = strconv.Atoi(minute)
+	// hh, hh:mm or (JSON only) hh:mm:ss
+	limits := []int{maxHour, maxMinute, maxMinute}
+	fields := strings.Split(src[pos+1:], ":")
+	if len(fields) > len(limits) {
+		return false
 	}
 
-	return errH == nil && errM == nil && h <= maxHour && m <= maxMinute
+	for i, field := range fields {
+		if n, err := strconv.Atoi(field); err != nil || n > limits[i] {
+			return false
+		}
+	}
+
+	return true
 }
 
 func adjustPrecision(value time.Time, precision int) time.Time {
